@@ -102,6 +102,10 @@ func (e *c03tEcho) VarlinkDispatch(ctx context.Context, c varlink.Call, method s
 			if err := c.Reply(ctx, params); err != nil {
 				return err
 			}
+			var after json.RawMessage
+			if err := c.GetParameters(&after); err != nil || string(after) != string(raw) {
+				e.got = append(e.got, fmt.Sprintf("READ-AFTER-REPLY-DIFFERS: %s (err %v)", string(after), err))
+			}
 		}
 		return nil
 	}
@@ -209,6 +213,20 @@ func c03tRun(in c03tInput) (msg, key string, infra bool, cases int) {
 		p := freePort()
 		sockaddr = fmt.Sprintf("127.0.0.1:%d", p)
 		network, addr = "tcp", "tcp:"+sockaddr
+	case "tcp6", "tcp-name":
+		// an IPv6 literal in brackets; a host name instead of a literal
+		host := "[::1]"
+		if in.Transport == "tcp-name" {
+			host = "localhost"
+		}
+		l, lerr := net.Listen("tcp", host+":0")
+		if lerr != nil {
+			return "", "", false, 0 // (runC03T lists these transports only where the host exists)
+		}
+		p := l.Addr().(*net.TCPAddr).Port
+		l.Close()
+		sockaddr = fmt.Sprintf("%s:%d", host, p)
+		network, addr = "tcp", "tcp:"+sockaddr
 	}
 	if needService {
 		go func() { done <- svc.Listen(context.Background(), addr, 0) }()
@@ -248,6 +266,16 @@ func c03tRun(in c03tInput) (msg, key string, infra bool, cases int) {
 		conn, err = varlink.NewConnection(ctx, addr)
 	}
 	if err != nil {
+		if needService && !strings.HasPrefix(in.Transport, "bridge") {
+			// is it the environment? a plain dial of the same socket address tells
+			if pc, perr := net.DialTimeout(network, strings.Trim(sockaddr, "[]"), 5*time.Second); perr == nil {
+				pc.Close()
+				return fmt.Sprintf("%s: the service listens on %s (a plain dial of %s connects) but NewConnection(%q) failed: %v", in.Transport, addr, sockaddr, addr, err), "symptom=cannot-connect transport=" + in.Transport, false, 0
+			} else if pc, perr := net.DialTimeout(network, sockaddr, 5*time.Second); perr == nil {
+				pc.Close()
+				return fmt.Sprintf("%s: the service listens on %s (a plain dial of %s connects) but NewConnection(%q) failed: %v", in.Transport, addr, sockaddr, addr, err), "symptom=cannot-connect transport=" + in.Transport, false, 0
+			}
+		}
 		return "cannot connect over " + in.Transport + ": " + err.Error(), "infra", true, 0
 	}
 	defer conn.Close()
@@ -387,6 +415,16 @@ func runC03T(tier string, r *Result) {
 	for _, tr := range transports {
 		for from := 0; from < len(docs); from += batch {
 			inputs = append(inputs, c03tInput{Transport: tr, Kind: "docs", Docs: docs[from:min(from+batch, len(docs))]})
+		}
+	}
+	// TCP addresses other than an IPv4 literal (where this machine has them)
+	for _, tr := range []string{"tcp6", "tcp-name"} {
+		host := map[string]string{"tcp6": "[::1]", "tcp-name": "localhost"}[tr]
+		if l, err := net.Listen("tcp", host+":0"); err == nil {
+			l.Close()
+			inputs = append(inputs, c03tInput{Transport: tr, Kind: "docs", Docs: docs[:min(batch, len(docs))]})
+		} else {
+			r.Extra["transport_unavailable_"+tr]++
 		}
 	}
 	// a bridge that forwards with a delay: a oneway call, then Close at once - what Send reported as written still arrives
